@@ -492,7 +492,7 @@ class RefRun(object):
         cname = body['wf']
         cwf = None
         for w in self.prog['workflows']:
-            if w['name'] == cname:
+            if w['name'] == cname or w.get('short') == cname:
                 cwf = w
         k = o.sub_counts.get(idx, 0)
         o.sub_counts[idx] = k + 1
